@@ -25,3 +25,14 @@ pub fn dump(a: &dyn Array) -> String {
         t => format!("?{:?}", t),
     }
 }
+
+/// leaf paths of an Arrow type with their primitive types: `ports.P1.leader.pre.position.x:f32`
+pub fn leaves(prefix: &str, t: &DataType, out: &mut Vec<String>) {
+    match t {
+        DataType::Struct(fields) => for f in fields { let p = if prefix.is_empty() { f.name.clone() } else { format!("{}.{}", prefix, f.name) }; leaves(&p, &f.data_type, out); },
+        DataType::List(inner) => { let p = format!("{}[]", prefix); leaves(&p, &inner.data_type, out); }
+        DataType::UInt8 => out.push(format!("{}:u8", prefix)), DataType::Int8 => out.push(format!("{}:i8", prefix)), DataType::UInt16 => out.push(format!("{}:u16", prefix)),
+        DataType::UInt32 => out.push(format!("{}:u32", prefix)), DataType::Int32 => out.push(format!("{}:i32", prefix)), DataType::Float32 => out.push(format!("{}:f32", prefix)),
+        t => out.push(format!("{}:?{:?}", prefix, t)),
+    }
+}
